@@ -336,6 +336,10 @@ def prov_rsenc(ctx):
         if s[0] == "for" and strip_into_iter(s[2])[:2] == scr[:2]:
             body = s[3]
             reset = len(body) == 1 and body[0][0] == "assign" and body[0][2] == ("lit", 0) and is_var(body[0][1], s[1][0].split("#")[0])
+        if s[0] == "expr" and s[1][0] == "call" and s[1][1].endswith("::fill") and strip_into_iter(s[1][2][0])[:2] == scr[:2] and s[1][2][1] == ("lit", 0):
+            reset = True      # ecc.fill(0)
+        if s[0] == "let" and s[1].split("#")[0] == (scr[1] if scr[0] == "var" else None) and s[3][0] == "call" and s[3][1].endswith("vec::from_elem") and s[3][2][0] == ("lit", 0):
+            reset = True      # a fresh zeroed register per block
         if s[0] == "expr" and s[1] is call:
             break
     ob("scratch-reset", reset, "the scratch register is zeroed before each block's division")
@@ -639,6 +643,16 @@ def synzero(ctx):
             if rhs[0] == "logic" and rhs[1] == "Or":
                 parts = [rhs[2], rhs[3]]
                 okupd = any(is_var(p, "errors") for p in parts) and any(p[0] == "call" and p[1].endswith("::ne") and is_var(p[2][0], ovar) for p in parts)
+        elif len(upd) == 1 and upd[0][0] == "assignop" and upd[0][1] == "BitOrAssign":
+            rhs = upd[0][3]
+            okupd = rhs[0] == "call" and rhs[1].endswith("::ne") and is_var(rhs[2][0], ovar)
+        elif not upd:
+            # `if *o != GF(0) { errors = true; }` - the flag is only ever set, never cleared, inside the loop
+            sets = [st for st in T.stmt_walk(loops[0][3]) if st[0] == "assign" and is_var(st[1], "errors")]
+            conds = [st for st in loops[0][3] if st[0] == "if" and st[1][0] == "call" and st[1][1].endswith("::ne") and is_var(st[1][2][0], ovar)
+                     and len(st[2]) == 1 and st[2][0][0] == "assign" and is_var(st[2][0][1], "errors") and st[2][0][2] == ("lit", True) and not st[3]]
+            okupd = len(sets) == 1 and len(conds) == 1
+            det = "if-form"
         tail = psts[-1]
         ok = over_out and okupd and tail[0] == "expr" and is_var(tail[1], "errors")
     obs.append(Ob(r, "pee-or", ok, "primitive_element_evaluation returns true iff some evaluated syndrome is non-zero (OR over every entry of `out`)", site=T.span_str(pe["span"]), detail=det))
@@ -724,6 +738,10 @@ def gather_scatter(ctx):
             return expand(pure[e[1]], depth - 1)
         if e[0] == "bin":
             return ("bin", e[1], expand(e[2], depth - 1), expand(e[3], depth - 1))
+        if e[0] == "call" and e[1].startswith("errorcode::"):
+            e2 = T.inline_pure_helper(f, e)
+            if e2 is not e:
+                return expand(e2, depth - 1)
         return e
 
     def is_ceil_len(e, base):
